@@ -1,2 +1,5 @@
 import UnifexModel.Core.Sched
 import UnifexModel.Core.Reflect
+import UnifexModel.Core.Admit
+import UnifexModel.Driver.Registry
+import UnifexModel.Props.C03
